@@ -102,7 +102,18 @@ def _replay_theta(rows):
     for r in rows:
         p, q = r["pq"]
         theta = 2 * math.degrees(math.atan2(p, q))
+        # an earlier caller of the public helper who modified ITS OWN result must not influence cones built afterwards
+        try:
+            from vopy.utils import get_2d_w
+            w_own = get_2d_w(theta)
+            w_own *= 3.0
+            w_own[1] *= -0.5
+        except Exception:
+            pass
         c = ConeTheta2D(theta)
+        if not np.allclose(np.linalg.norm(np.asarray(c.W, dtype=float), axis=1), 1.0, atol=1e-9):
+            bad.append({"kind": "theta-W-not-unit", "row": r, "pq": [p, q], "theta": theta, "W": np.asarray(c.W).tolist()})
+            continue
         beta = r["beta"][0] / r["beta"][1]
         alpha = math.sqrt(r["alpha"][0][0] / r["alpha"][0][1])
         if not (abs(c.beta - beta) < 1e-9 * max(1, beta) and np.allclose(np.asarray(c.alpha).flatten(), alpha, atol=2e-6)
